@@ -448,6 +448,67 @@ func NextGuard(c *core.Ctx, rule string, pkgs []*packages.Package) {
 			}
 			return true
 		})
+		// bound state: hasNext reads a captured variable that next writes (a counter, a flag), so its answer is more than
+		// the source's HasNext. If next then guards its pull with the source's HasNext alone — neither calling hasNext
+		// nor repeating its condition — the guard is weaker than hasNext: Next keeps delivering after HasNext said false.
+		if !stateful && h.recv == nil && nx.recv == nil {
+			written := map[types.Object]bool{}
+			ast.Inspect(nx.body, func(x ast.Node) bool {
+				switch a := x.(type) {
+				case *ast.AssignStmt:
+					for _, l := range a.Lhs {
+						if o := objOf(info, l); o != nil && (o.Pos() < nx.body.Pos() || o.Pos() > nx.body.End()) {
+							written[o] = true
+						}
+					}
+				case *ast.IncDecStmt:
+					if o := objOf(info, a.X); o != nil && (o.Pos() < nx.body.Pos() || o.Pos() > nx.body.End()) {
+						written[o] = true
+					}
+				}
+				return true
+			})
+			bound := len(written) > 0 && nodeContains(h.body, true, func(x ast.Node) bool {
+				id, ok := x.(*ast.Ident)
+				return ok && written[hinfo.Uses[id]]
+			})
+			if bound {
+				callsH := nodeContains(nx.body, false, func(x ast.Node) bool {
+					call, ok := x.(*ast.CallExpr)
+					return ok && h.obj != nil && objOf(info, call.Fun) == h.obj
+				})
+				hCond := ""
+				if len(h.body.List) == 1 {
+					if r, ok := h.body.List[0].(*ast.ReturnStmt); ok && len(r.Results) == 1 {
+						hCond = exprString(r.Results[0])
+					}
+				}
+				var weak *ast.IfStmt
+				repeats := false
+				ast.Inspect(nx.body, func(x ast.Node) bool {
+					is, ok := x.(*ast.IfStmt)
+					if !ok {
+						return true
+					}
+					if hCond != "" && exprString(is.Cond) == hCond {
+						repeats = true
+					}
+					if call, ok := ast.Unparen(is.Cond).(*ast.CallExpr); ok && len(call.Args) == 0 {
+						if sel, ok := ast.Unparen(call.Fun).(*ast.SelectorExpr); ok && sel.Sel.Name == "HasNext" {
+							if tv, ok := info.Types[sel.X]; ok && cursorKind(tv.Type) != "" {
+								weak = is
+							}
+						}
+					}
+					return true
+				})
+				if weak != nil && !callsH && !repeats {
+					n++
+					c.Add(rule, key, weak.Pos(), core.Violated, "hasNext also depends on state that next updates, but next guards its pull only with `"+exprString(weak.Cond)+"`: once hasNext reports false (the bound is reached) Next still returns — and consumes — the source's next element instead of panicking")
+					continue
+				}
+			}
+		}
 		if !stateful {
 			c.Add(rule, key, s.call.Pos(), core.Discharged, "hasNext keeps no look-ahead state")
 			continue
